@@ -129,6 +129,38 @@ pub fn check_mutation(tape: &[u16], rc: &mut RCase) -> Result<(), Failure> {
     judge(&src, "token_mutation", rc)
 }
 
+const RUN_LENGTHS: [usize; 4] = [8, 24, 48, 64];
+const RUN_SEPS: [&str; 3] = ["", " ", " x\n"];
+
+fn run_fragments() -> &'static Vec<String> {
+    static F: OnceLock<Vec<String>> = OnceLock::new();
+    F.get_or_init(|| {
+        let mut v = grammar().literals();
+        for extra in ["/*", "*/", "//", "\"", "'", "0x", "#", "é", "1", "a.", "a[", "T {", "T::", "-", "+ 1"] {
+            if !v.iter().any(|x| x == extra) {
+                v.push(extra.to_string());
+            }
+        }
+        v
+    })
+}
+
+/// enumerated: every grammar literal (and a few other fragments) repeated 8..64 times, three separators, four placements
+pub fn check_run(i: u64, rc: &mut RCase) -> Result<(), Failure> {
+    let frags = run_fragments();
+    let mut k = i as usize;
+    let f = &frags[k % frags.len()];
+    k /= frags.len();
+    let n = RUN_LENGTHS[k % RUN_LENGTHS.len()];
+    k /= RUN_LENGTHS.len();
+    let sep = RUN_SEPS[k % RUN_SEPS.len()];
+    k /= RUN_SEPS.len();
+    let base = "party P;\ntx t(a: Int) {\n  output {\n    to: P,\n    amount: Ada(a),\n  }\n}\n";
+    let src = fegen::repeated(f, n, sep, k, base);
+    rc.label("repeated_fragment_runs");
+    judge(&src, &format!("repeated_fragment:{:?}x{}", f, n), rc)
+}
+
 pub fn check_nesting(kind: usize, depth: usize, rc: &mut RCase) -> Result<(), Failure> {
     let (src, name) = fegen::nested(kind, depth);
     rc.label(&format!("nesting:{}", name));
@@ -139,7 +171,7 @@ pub fn run(tier: Tier, seed: u64) -> Report {
     let mut r = Report::new("C12", tier, seed);
     r.rule = "strings expanded from the grammar file itself (pest_meta, depth 4..12), token-level mutations (delete, \
               duplicate, swap, splice, literal stretching, odd tokens, truncate; 1-3 rounds) of the repository's \
-              examples and of generated programs, and every bracketing construct nested 1..64 deep. Parsing runs under \
+              examples and of generated programs, every bracketing construct nested 1..64 deep, and runs of every grammar literal (read from the grammar file) repeated 8..64 times - unbalanced openers, comment delimiters, operators, keywords - alone, after a program and inside a tx body. Parsing runs under \
               pest's rule-call limit (4*10^6) as the deterministic non-termination test. distinct = hash of the text; \
               non-trivial = the text parses, or fails after offset 0 in a text containing a tx"
         .into();
@@ -154,6 +186,8 @@ pub fn run(tier: Tier, seed: u64) -> Report {
     r.enumerate("examples_unmodified", ex.len() as u64, &|i, rc| judge(&ex[i as usize].1, &format!("example:{}", ex[i as usize].0), rc));
     // nesting: every construct x every depth 1..64
     r.enumerate("nesting", 12 * 64, &|i, rc| check_nesting((i % 12) as usize, 1 + (i / 12) as usize, rc));
+    let runs = (run_fragments().len() * RUN_LENGTHS.len() * RUN_SEPS.len() * 4) as u64;
+    r.enumerate("repeated_fragments", runs, &|i, rc| check_run(i, rc));
     r.explore("grammar_derived", tier.pick(60_000, 2_000_000), 700, &|t, rc| check_grammar(t, rc));
     r.explore("token_mutation", tier.pick(60_000, 2_000_000), 500, &|t, rc| check_mutation(t, rc));
     r
@@ -167,6 +201,10 @@ pub fn replay(phase: &str, tape: &[u16], seed: u64) -> Report {
         "nesting" => {
             let i = ((tape[2] as u64) << 16) | tape[3] as u64;
             r.enumerate(phase, 1, &|_, rc| check_nesting((i % 12) as usize, 1 + (i / 12) as usize, rc));
+        }
+        "repeated_fragments" => {
+            let i = ((tape[2] as u64) << 16) | tape[3] as u64;
+            r.enumerate(phase, 1, &|_, rc| check_run(i, rc));
         }
         "examples_unmodified" => {
             let i = tape[3] as usize;
